@@ -256,7 +256,13 @@ func (r *runner) fixtures() {
 		sort.Strings(names)
 		limit := 12
 		if r.c.Thorough() {
-			limit = len(names)
+			// thorough tier: up to 300 alterations per fixture (each one re-parses the fixture and re-enumerates its
+			// fields, so whole 1000-transaction blocks would take hours), 12 once 25 minutes are used up
+			limit = min(len(names), 300)
+			if time.Since(start) > 25*time.Minute {
+				limit = min(len(names), 12)
+				stats["tamper:sweep-sampled(thorough time budget)"]++
+			}
 		} else if time.Since(start) > 11*time.Second {
 			limit = 0 // quick tier: the sweep over fixtures has a time budget; the correspondence part always runs
 			stats["tamper:sweep-skipped(time budget)"]++
